@@ -39,12 +39,12 @@ type fakeClient struct {
 	events        atomic.Int64
 }
 
-func (c *fakeClient) Group() *group.Group              { return c.g.Load() }
-func (c *fakeClient) Addr() net.Addr                   { return nil }
-func (c *fakeClient) Id() string                       { return c.id }
-func (c *fakeClient) Username() string                 { return c.user }
-func (c *fakeClient) Init(u string, p []string)        { c.user = u; c.perms = p }
-func (c *fakeClient) Data() map[string]interface{}     { return nil }
+func (c *fakeClient) Group() *group.Group          { return c.g.Load() }
+func (c *fakeClient) Addr() net.Addr               { return nil }
+func (c *fakeClient) Id() string                   { return c.id }
+func (c *fakeClient) Username() string             { return c.user }
+func (c *fakeClient) Init(u string, p []string)    { c.user = u; c.perms = p }
+func (c *fakeClient) Data() map[string]interface{} { return nil }
 func (c *fakeClient) Permissions() []string {
 	if c.onPermissions != nil {
 		c.onPermissions()
